@@ -9,7 +9,8 @@ PROP = {
   "saml2_tophat.response:AuthnResponse.loads",
   "saml2_tophat.response:AuthnResponse._assertion",
   "saml2_tophat.response:AuthnResponse.get_subject",
-  "saml2_tophat.response:AuthnResponse.verify_recipient"
+  "saml2_tophat.response:AuthnResponse.verify_recipient",
+  "saml2_tophat.config:Config.endpoint"
  ],
  "level": "proof",
  "id": "C05"
